@@ -722,12 +722,63 @@ func genSitePost(r *Rng) []byte {
 	return append([]byte{byte(k), flags}, body...)
 }
 
+// ---- whole answers for archiver.ProcessBody + postprocessItem ------------------------------------
+
+var archStatuses = []int{200, 200, 200, 204, 304, 301, 302, 303, 307, 308, 300, 100, 101, 201, 205, 206, 404, 500, 0, 999}
+var archCTs = []string{"", "text/html; charset=utf-8", "application/json", "text/xml", "application/vnd.apple.mpegurl", "text/plain", "application/pdf", "image/png", "application/xhtml+xml", "application/octet-stream"}
+var badLocations = []string{"/next%zz", "http://[::1/x", "http://exa mple.com/", "http://example.com:http/", "http://h.example/a b", "%", "\x7f", ":", "ht!tp://x/", "http://h.example/%", " http://h.example/", "http://h.example/\x00", "http://[fe80::1%en0]/", "//[/"}
+
+// genArch: byte 0 status, byte 1 flags (bits 0-1 depth 0..2, bit 2 domains crawl, bit 3 http.NoBody,
+// bit 4 no Location header, bit 5 hop limit reached), byte 2 Content-Type, then the Location value up
+// to the first newline, then the body.
+func genArch(r *Rng) []byte {
+	var loc string
+	switch r.Intn(6) {
+	case 0:
+		loc = randURL(r)
+	case 1:
+		loc = pickS(r, badLocations)
+	case 2:
+		loc = string(genNormURL(r))
+	case 3:
+		loc = "/" + randWord(r) + pickS(r, []string{"", "?a=1", "%zz", " x", "#f"})
+	case 4:
+		loc = string(mutate(r, []byte(randURL(r)), 1+r.Intn(2), urlDict))
+	default:
+		loc = ""
+	}
+	loc = strings.NewReplacer("\n", "", "\r", "").Replace(loc)
+	var body []byte
+	switch r.Intn(8) {
+	case 0, 1:
+		body = nil
+	case 2:
+		body = genJSONDoc(r)
+	case 3:
+		body = genM3U8(r)
+	case 4:
+		body = genXMLDoc(r)
+	case 5:
+		body = []byte("plain " + randURL(r))
+	case 6:
+		body = randBytes(r, r.Intn(64))
+	default:
+		body = genHTMLDoc(r)
+	}
+	flags := byte(r.Intn(256))
+	if loc != "" || r.Chance(50) {
+		flags &^= 16
+	}
+	hdr := []byte{byte(r.Intn(len(archStatuses))), flags, byte(r.Intn(len(archCTs)))}
+	return append(append(append(hdr, loc...), '\n'), body...)
+}
+
 // ---- dispatcher -------------------------------------------------------------------------------
 
-var fuzzTargets = []string{"html", "json", "xml", "sitemap", "s3", "m3u8", "pdf", "post", "norm", "linkhdr", "script", "body", "site", "sitepost"}
+var fuzzTargets = []string{"html", "json", "xml", "sitemap", "s3", "m3u8", "pdf", "post", "norm", "linkhdr", "script", "body", "site", "sitepost", "arch"}
 
 // weights of the targets in the generated stream (pdf is slow, it gets fewer inputs)
-var fuzzWeights = []int{16, 10, 10, 5, 6, 14, 4, 12, 8, 3, 4, 3, 4, 10}
+var fuzzWeights = []int{16, 10, 10, 5, 6, 14, 4, 12, 8, 3, 4, 3, 4, 10, 10}
 
 func fuzzTargetIndex(name string) int {
 	for i, t := range fuzzTargets {
@@ -751,6 +802,8 @@ func genFuzzData(target, g string, seed uint64) []byte {
 			return genSiteJSON(r, r.Intn(4)), siteDict
 		case "sitepost":
 			return genSitePost(r), siteDict
+		case "arch":
+			return genArch(r), urlDict
 		case "xml":
 			return genXMLDoc(r), xmlDict
 		case "sitemap":
@@ -820,6 +873,8 @@ func genFuzzData(target, g string, seed uint64) []byte {
 			return pathoJSON(r)
 		case "sitepost":
 			return append([]byte{byte(r.Intn(256)), byte(r.Intn(256))}, pathoJSON(r)...)
+		case "arch":
+			return append([]byte{byte(r.Intn(256)), byte(r.Intn(256)), byte(r.Intn(256))}, []byte("http://"+strings.Repeat("%", 1+r.Intn(3000))+"\n"+strings.Repeat("<div>", r.Intn(3000)))...)
 		case "xml", "sitemap", "s3":
 			return pathoXML(r)
 		case "m3u8":
